@@ -704,28 +704,111 @@ func spilledResult(r *ssa.Return, idx int) ssa.Value {
 	return v
 }
 
-// mustFollow: after every instruction matching trig, an instruction matching eff follows on all paths.
-func (c *Ctx) mustFollow(rule string, fn *ssa.Function, trigDesc string, trig func(ssa.Instruction) bool, effDesc string, eff func(ssa.Instruction) bool, okExit func(ssa.Instruction) bool, req string) int {
-	c.saw(fnName(fn))
-	n := 0
-	for _, b := range fn.Blocks {
-		for i, ins := range b.Instrs {
-			if !trig(ins) {
-				continue
-			}
-			n++
-			ok, at := followsOnAllPaths(b, i+1, b, eff, okExit)
-			construct := fmt.Sprintf("%s after %s in %s", effDesc, trigDesc, fnName(fn))
-			if n > 1 {
-				construct += fmt.Sprintf(" #%d", n)
-			}
-			detail := ""
-			if !ok && at != nil {
-				detail = "a path from " + c.P.instrPos(ins) + " reaches " + c.P.instrPos(at) + " without it"
-			}
-			c.Check(ok, rule, construct, req, c.P.instrPos(ins), detail)
+// pendingEv: "the trigger was passed and the effect has not happened since".
+type pendingEv struct {
+	name string
+	trig func(ssa.Instruction) bool
+	edge func(cond ssa.Value, pos bool) bool
+	eff  func(ssa.Instruction) bool
+}
+
+func (p *pendingEv) Name() string { return p.name }
+func (p *pendingEv) Instr(st uint8, ins ssa.Instruction) uint8 {
+	// a trigger that is also an effect of its own kind (a Set… followed by another Set…) starts a new obligation
+	if p.trig != nil && p.trig(ins) {
+		return bEST
+	}
+	if p.eff(ins) {
+		return 0
+	}
+	return st
+}
+func (p *pendingEv) Edge(st uint8, from *ssa.BasicBlock, succ int) uint8 {
+	if p.edge == nil || len(from.Succs) != 2 {
+		return st
+	}
+	if iff, ok := from.Instrs[len(from.Instrs)-1].(*ssa.If); ok {
+		if cond, pos := ifCond(iff, succ == 0); p.edge(cond, pos) {
+			return bEST
 		}
 	}
+	return st
+}
+func (p *pendingEv) Holds(st uint8) bool { return st != 0 }
+
+// mustFollowCore decides a must-follow obligation on the product of the flow
+// graph with the pending event: the effect is still pending at no exit of the
+// function that counts (okExit exempts exits; a returned error is resolved on
+// the path: spilled results, φs selected by the tests taken) and not when
+// control comes round to the trigger again. Being path-sensitive to boolean and
+// nil-compared φs it is not fooled by `err = f(); …; if err != nil` written
+// through a variable (which is also what helper expansion produces).
+func (c *Ctx) mustFollowCore(rule string, fn *ssa.Function, construct string, pend *pendingEv, isTrigSite func(ssa.Instruction) bool, okExit func(ssa.Instruction) bool, req string) int {
+	c.saw(fnName(fn))
+	isTarget := func(x ssa.Instruction) bool {
+		if _, ok := x.(*ssa.Return); ok {
+			return true
+		}
+		return isTrigSite(x)
+	}
+	ex := explore(c.P, fn, 0, []Ev{pend}, isTarget)
+	n, bad, where := 0, "", ""
+	for _, b := range fn.Blocks {
+		for _, ins := range b.Instrs {
+			if isTrigSite(ins) {
+				n++
+			}
+			sts, ok := ex.at[ins]
+			if !ok || !isTarget(ins) {
+				continue
+			}
+			for i, st := range sts {
+				if !pend.Holds(getSt(st, 0)) {
+					continue
+				}
+				if _, isRet := ins.(*ssa.Return); !isRet && pend.eff(ins) {
+					continue // a trigger that also discharges the previous obligation (set again: a rollback)
+				}
+				if r, isRet := ins.(*ssa.Return); isRet {
+					if okExit != nil {
+						if okExit(ins) {
+							// the error operand as it is on this path
+							if len(r.Results) > 0 {
+								op := ex.resolveAt(spilledResult(r, len(r.Results)-1), ex.atSel[ins][i])
+								if !isNilConst(op) {
+									continue
+								}
+							} else {
+								continue
+							}
+						} else if len(r.Results) > 0 && isErrorType(r.Results[len(r.Results)-1].Type()) {
+							op := ex.resolveAt(spilledResult(r, len(r.Results)-1), ex.atSel[ins][i])
+							if !isNilConst(op) {
+								continue
+							}
+						}
+					}
+				}
+				if bad == "" {
+					bad = "reached " + c.P.instrPos(ins) + " with the effect outstanding via " + ex.findTrace(b.Index, st, ins)
+					where = c.P.instrPos(ins)
+				}
+			}
+		}
+	}
+	_ = where
+	if n == 0 {
+		return 0
+	}
+	c.Check(bad == "", rule, construct, req, c.P.pos(fn.Pos()), bad)
+	return n
+}
+
+// mustFollow: after every instruction matching trig, an instruction matching eff follows on all paths.
+func (c *Ctx) mustFollow(rule string, fn *ssa.Function, trigDesc string, trig func(ssa.Instruction) bool, effDesc string, eff func(ssa.Instruction) bool, okExit func(ssa.Instruction) bool, req string) int {
+	construct := fmt.Sprintf("%s after %s in %s", effDesc, trigDesc, fnName(fn))
+	pend := &pendingEv{name: effDesc + " outstanding", trig: trig, eff: eff}
+	n := c.mustFollowCore(rule, fn, construct, pend, trig, okExit, req)
 	if n == 0 {
 		c.Undec(rule, trigDesc+" in "+fnName(fn), req, c.P.pos(fn.Pos()), "trigger not found in this function")
 	}
@@ -734,32 +817,21 @@ func (c *Ctx) mustFollow(rule string, fn *ssa.Function, trigDesc string, trig fu
 
 // mustFollowEdge: the same with the edge of a test as trigger (match is given the condition and the edge's truth).
 func (c *Ctx) mustFollowEdge(rule string, fn *ssa.Function, trigDesc string, match func(cond ssa.Value, pos bool) bool, effDesc string, eff func(ssa.Instruction) bool, okExit func(ssa.Instruction) bool, req string) int {
-	c.saw(fnName(fn))
-	n := 0
-	for _, b := range fn.Blocks {
-		iff, ok := b.Instrs[len(b.Instrs)-1].(*ssa.If)
+	construct := fmt.Sprintf("%s when %s in %s", effDesc, trigDesc, fnName(fn))
+	isTest := func(x ssa.Instruction) bool {
+		iff, ok := x.(*ssa.If)
 		if !ok {
-			continue
+			return false
 		}
 		for si := 0; si < 2; si++ {
-			cond, pos := ifCond(iff, si == 0)
-			if !match(cond, pos) {
-				continue
+			if cond, pos := ifCond(iff, si == 0); match(cond, pos) {
+				return true
 			}
-			n++
-			okF, at := followsOnAllPaths(b.Succs[si], 0, b, eff, okExit)
-			// the successor itself is not "back at the trigger"
-			construct := fmt.Sprintf("%s when %s in %s", effDesc, trigDesc, fnName(fn))
-			if n > 1 {
-				construct += fmt.Sprintf(" #%d", n)
-			}
-			detail := ""
-			if !okF && at != nil {
-				detail = "a path from the test at " + c.P.instrPos(iff) + " reaches " + c.P.instrPos(at) + " without it"
-			}
-			c.Check(okF, rule, construct, req, c.P.instrPos(iff), detail)
 		}
+		return false
 	}
+	pend := &pendingEv{name: effDesc + " outstanding", edge: match, eff: eff}
+	n := c.mustFollowCore(rule, fn, construct, pend, isTest, okExit, req)
 	if n == 0 {
 		c.Undec(rule, "test "+trigDesc+" in "+fnName(fn), req, c.P.pos(fn.Pos()), "test not found in this function")
 	}
